@@ -243,7 +243,15 @@ def evaluate(ctx, case, outs, light=False):
     bad = []
     byarg = by
     # -- pc_conditional
-    kw = {} if case['w'] is None else dict(group_weights=case['w'] if not case.get('w_array') else np.array(case['w']))
+    kw = {}
+    if case['w'] is not None:
+        # the weights are aligned with the sorted surviving groups BY POSITION whatever container carries them: list, ndarray,
+        # tuple, or a pandas Series whose index has nothing to do with the group keys
+        wk = case.get('w_kind', 'array' if case.get('w_array') else 'list')
+        wv = list(case['w'])
+        kw = dict(group_weights={'list': wv, 'array': np.array(wv), 'tuple': tuple(wv),
+                                 'series': pd.Series(wv, index=['w%d' % (len(wv) - i) for i in range(len(wv))]),
+                                 'series_int': pd.Series(wv, index=list(range(len(wv)))[::-1])}[wk])
     r = call_impl(st.pc_conditional, df, byarg, on, **kw)
     if not wire_ok(r, cond):
         bad.append(('stats.pc_conditional', 'pc_conditional(by=%r, on=%r, %r) = %s, model %s' % (by, on, kw, r, cond)))
@@ -352,7 +360,7 @@ def gen_case(rng, quick):
         wbad = [rng.choice(WEIGHTS) for _ in range(nbig + rng.choice([1, 2]))]
         if len(wbad) < 2:
             wbad = None
-    return dict(rows=rows, by=by, on=on, features=features, w=w, w_array=rng.random() < 0.3, wbad=wbad, edges=rng.choice(EDGES), edges_array=rng.random() < 0.4,
+    return dict(rows=rows, by=by, on=on, features=features, w=w, w_array=rng.random() < 0.3, w_kind=rng.choice(['list', 'array', 'tuple', 'series', 'series_int']), wbad=wbad, edges=rng.choice(EDGES), edges_array=rng.random() < 0.4,
                 norm=rng.random() < 0.8, base=rng.choice(BASES), base_default=rng.random() < 0.15)
 
 
